@@ -419,6 +419,12 @@ func (ix *PkgIndex) freshSlice(f *FuncInfo, e ast.Expr) bool {
 			if isCallTo(info, r, "slices.Clone") {
 				return true
 			}
+			// library operations that return their (possibly re-allocated) first argument: fresh when applied to the fresh slice itself
+			for _, nm := range []string{"slices.Delete", "slices.DeleteFunc", "slices.Insert", "slices.Grow", "slices.Clip", "slices.Compact", "slices.CompactFunc"} {
+				if isCallTo(info, r, nm) {
+					return len(r.Args) > 0 && (sameVar(info, r.Args[0], v) || isFresh(r.Args[0]))
+				}
+			}
 		case *ast.SliceExpr:
 			return sameVar(info, r.X, v)
 		case *ast.Ident:
